@@ -22,6 +22,11 @@ def obligations(tier, ctx):
                           family="shutdown control logic"))
     obs.append(Ob(name="shutdown_no_taskgroup", params=[("exited", "bool"), ("on_term", "bool"), ("on_kill", "bool"), ("term_raises", "bool"), ("outer", "bool")], pre=[],
                   call="H.shutdown(exited, on_term, on_kill, term_raises, 0, outer, False)", backend="P", timeout=120, family="shutdown control logic"))
+    for body in range(4):
+        for tgm in ((0, 1) if tier == "quick" else (0, 1, 2, 3, 4)):
+            obs.append(Ob(name=f"wrapper_body{body}_tg{tgm}", params=[("on_term", "bool"), ("on_kill", "bool"), ("outer", "bool")], pre=[],
+                          call=f"H.wrapper(0, {body}, on_term, on_kill, {tgm}, outer)", backend="P", timeout=120,
+                          family="stdio_client context manager: body leaves normally / by exception / by cancellation"))
     obs.append(Ob(name="cannot_start", params=[("w", "int")], pre=["0 <= w <= 2"], call="H.cannot_start(w)", backend="P", timeout=60, family="entering"))
     obs.append(Ob(name="empty_command", params=[("x", "int")], pre=["x == 0"], call="H.empty_command()", backend="P", timeout=30, family="entering"))
     return obs
